@@ -347,15 +347,28 @@ def check_decompile(ctx: Ctx, fi: Optional[FuncInfo], step: FuncInfo):
     ctx.check(idx is not None and not inner_incs and not has_continue, "TS-SECTION", fi, "gate index advances exactly once per gate", f"`{idx} += 1` is an unconditional statement of the loop", "the running gate index is not incremented exactly once per visited gate (section ranges drift)", loop)
     # section record = (buffer, step(buffer), (start, end))
     sa = sec_apps[0]
-    buf = norm(sa.args[0]) if sa.args else "?"
-    exps_arg = sa.args[1] if len(sa.args) > 1 else None
-    ok = False
+    ds_init = ctx.repo.cls(f"{DEC}.DecompiledSection").methods.get("__init__")
+    sa_args = q.bound_args(ctx.repo, sa, q.call_params(ds_init)) if ds_init is not None else None
+    if sa_args is None or len(sa_args) < 3 or sa_args[0] is None:
+        raise AnchorError(fi.short, f"`{norm(sa)[:60]}`: cannot match the arguments with DecompiledSection's parameters")
+    buf = norm(sa_args[0])
+    exps_arg = sa_args[1]
+    step_call = None
     if isinstance(exps_arg, ast.Name):
         for n in ast.walk(loop):
             if isinstance(n, ast.Assign) and norm(n.targets[0]) == exps_arg.id and isinstance(n.value, ast.Call):
-                ok = len(n.value.args) == 2 and norm(n.value.args[1]) == buf and (dotted(n.value.func) or "").endswith("exps_of_section")
-    ctx.check(ok, "TS-SECTION", fi, "section expressions come from the section's own gates", f"exps = step(qc, {buf})", "the expressions attached to a section are not computed from that section's gate buffer", sa)
-    rng = sa.args[2] if len(sa.args) > 2 else None
+                step_call = n.value
+    elif isinstance(exps_arg, ast.Call):
+        step_call = exps_arg
+    if step_call is None or not (dotted(step_call.func) or "").endswith("exps_of_section"):
+        ctx.undecided(fi.short, f"the expressions of a section are `{norm(exps_arg)[:60] if exps_arg is not None else '?'}`, not a call of the symbolic step")
+    else:
+        st_args = q.bound_args(ctx.repo, step_call, q.call_params(step)) if step is not None else None
+        if st_args is None or len(st_args) < 2 or st_args[1] is None:
+            ctx.undecided(fi.short, f"`{norm(step_call)[:60]}`: cannot match the arguments with the step's parameters")
+        else:
+            ctx.check(norm(st_args[1]) == buf, "TS-SECTION", fi, "section expressions come from the section's own gates", f"exps = step(qc, {buf})", f"the expressions attached to a section are computed from `{norm(st_args[1])}`, not from that section's gate buffer `{buf}`", sa)
+    rng = sa_args[2]
     if isinstance(rng, ast.Name):
         # `rng = (start, i - 1) if <previous gate is a no-op> else (start, i)`, as statement or expression
         rdefs = [n for n in ast.walk(loop) if isinstance(n, ast.Assign) and len(n.targets) == 1 and norm(n.targets[0]) == rng.id]
